@@ -991,14 +991,21 @@ func init() {
 }
 
 func ruleNullSpell(c *Ctx) {
-	b := c.V5
-	if b == nil {
-		return
+	for _, b := range c.bodies() {
+		nullSpellComparison(c, b)
+		nullSpellHandler(c, b)
 	}
+}
+
+// nullSpellHandler: in the test handler every verdict taken where the
+// looked-up node is non-nil consults that node (a comparison method with the
+// node as receiver or argument): a null stored by add/replace is a non-nil
+// node and must still be seen as null.
+func nullSpellHandler(c *Ctx, b *Body) {
 	l := c.L
 	ai := b.findApply()
 	if ai == nil || ai.handlers["test"] == nil {
-		l.add("R-NULLSPELL", "v5", "anchor test handler", "", Undecided, "test handler not found", false)
+		l.add("R-NULLSPELL", b.Name, "anchor test handler", "", Undecided, "test handler not found", false)
 		return
 	}
 	fn := ai.handlers["test"]
@@ -1009,108 +1016,209 @@ func ruleNullSpell(c *Ctx) {
 		}
 	}
 	if val == nil {
-		l.add("R-NULLSPELL", "v5", "anchor looked-up node", b.rel(fn.Pos()), Undecided, "the test handler does not look the target up with container.get", false)
+		l.add("R-NULLSPELL", b.Name, "anchor looked-up node", b.rel(fn.Pos()), Undecided, "the test handler does not look the target up with container.get", false)
 		return
-	}
-	// the node comparison itself: no `not equal` verdict from the nil-ness of member / element nodes
-	for _, cmp := range b.srcFuncs(b.Lib) {
-		if recvTypeName(cmp) != "lazyNode" || cmp.Signature.Params().Len() != 1 || !isPtrToNamed(cmp.Signature.Params().At(0).Type(), "lazyNode") {
-			continue
-		}
-		if res := cmp.Signature.Results(); res.Len() != 1 || typeShort(res.At(0).Type()) != "bool" {
-			continue
-		}
-		key := fmt.Sprintf("%s: no `different` verdict is taken from the nil-ness of member or element nodes", fname(cmp))
-		bad := ""
-		isMemberNode := func(v ssa.Value) bool {
-			switch x := v.(type) {
-			case *ssa.Extract:
-				switch x.Tuple.(type) {
-				case *ssa.Next, *ssa.Lookup:
-					return isPtrToNamed(x.Type(), "lazyNode")
-				}
-			case *ssa.Lookup:
-				return isPtrToNamed(x.Type(), "lazyNode")
-			case *ssa.UnOp:
-				if _, ok := x.X.(*ssa.IndexAddr); ok {
-					return isPtrToNamed(x.Type(), "lazyNode")
-				}
-			}
-			return false
-		}
-		var mentionsMemberNil func(v ssa.Value, d int) bool
-		mentionsMemberNil = func(v ssa.Value, d int) bool {
-			if v == nil || d > 4 {
-				return false
-			}
-			if x, _, ok := nilTestOfCond(v); ok && isMemberNode(x) {
-				return true
-			}
-			switch x := v.(type) {
-			case *ssa.BinOp:
-				return mentionsMemberNil(x.X, d+1) || mentionsMemberNil(x.Y, d+1)
-			case *ssa.UnOp:
-				return mentionsMemberNil(x.X, d+1)
-			case *ssa.Phi:
-				for _, e := range x.Edges {
-					if mentionsMemberNil(e, d+1) {
-						return true
-					}
-				}
-			}
-			return false
-		}
-		for _, r := range liveReturns(cmp) {
-			k, isK := boolConst(retVal(r, 0))
-			if !isK || k {
-				continue
-			}
-			for _, e := range b.controlDeps(r.Block()) {
-				if iff, ok := e.From.Instrs[len(e.From.Instrs)-1].(*ssa.If); ok && mentionsMemberNil(iff.Cond, 0) {
-					bad = "`return false` at " + b.posOf(r) + " is decided by whether member/element nodes are nil: a null stored by add/replace (non-nil node with text `null`) then differs from a decoded null (nil node), so `add /o/a null` followed by `test /o {\"a\":null}` fails"
-				}
-			}
-		}
-		if bad != "" {
-			l.add("R-NULLSPELL", "v5", key, b.rel(cmp.Pos()), Violated, bad, true)
-		} else {
-			l.add("R-NULLSPELL", "v5", key, b.rel(cmp.Pos()), Discharged, "member and element nodes are compared through the comparison method, whose prologue treats both spellings of null alike", true)
-		}
 	}
 	tests := nilTests(fn, val)
 	if len(tests) == 0 {
-		l.add("R-NULLSPELL", "v5", "test handler: the looked-up node is compared with nil", b.rel(fn.Pos()), Discharged, "no nil test on the looked-up node: every verdict goes through the comparison methods, which handle both spellings", true)
+		l.add("R-NULLSPELL", b.Name, "test handler: the looked-up node is compared with nil", b.rel(fn.Pos()), Discharged, "no nil test on the looked-up node: every verdict goes through the comparison methods, which handle both spellings", true)
 	}
 	n := 0
 	for _, t := range tests {
+		// blocks that can run with the node known to be non-nil: reachable from the non-nil edge
+		fromNonNil := map[*ssa.BasicBlock]bool{}
+		var mark func(bb *ssa.BasicBlock)
+		mark = func(bb *ssa.BasicBlock) {
+			if fromNonNil[bb] {
+				return
+			}
+			fromNonNil[bb] = true
+			for _, sx := range bb.Succs {
+				mark(sx)
+			}
+		}
+		mark(t.Blk.Succs[t.NonNilSucc])
 		for _, r := range liveReturns(fn) {
-			if !edgeDominates(t.Blk, t.NonNilSucc, r.Block()) {
+			if !fromNonNil[r.Block()] {
 				continue
 			}
 			n++
 			key := fmt.Sprintf("test handler: verdict #%d on the non-nil side consults the looked-up node's content", n)
 			consults := false
+			onlyAbsentValue := false
 			for _, e := range b.controlDepsTransitive(r.Block()) {
 				iff, ok := e.From.Instrs[len(e.From.Instrs)-1].(*ssa.If)
 				if !ok {
 					continue
 				}
 				cv, _ := stripNot(iff.Cond)
-				call, ok := cv.(*ssa.Call)
-				if !ok || !isLazyNodeBoolMethod(&call.Call) {
-					continue
+				if call, ok := cv.(*ssa.Call); ok && isLazyNodeBoolMethod(&call.Call) {
+					for _, a := range call.Call.Args {
+						if a == val {
+							consults = true
+						}
+					}
 				}
-				for _, a := range call.Call.Args {
-					if a == val {
-						consults = true
+				// the operation has no value member at all (the accessor's result itself is nil)
+				if x, nnTrue, ok := nilTestOfCond(iff.Cond); ok {
+					if call, ok := x.(*ssa.Call); ok && call.Call.StaticCallee() != nil && recvTypeName(call.Call.StaticCallee()) == "Operation" && isPtrToNamed(call.Type(), "lazyNode") {
+						nilSucc := 1
+						if !nnTrue {
+							nilSucc = 0
+						}
+						if e.Succ == nilSucc {
+							onlyAbsentValue = true
+						}
 					}
 				}
 			}
-			if consults {
-				l.add("R-NULLSPELL", "v5", key, b.posOf(r), Discharged, "controlled by a comparison method applied to the looked-up node", true)
-			} else {
-				l.add("R-NULLSPELL", "v5", key, b.posOf(r), Violated, "this verdict is reached with a non-nil looked-up node without looking at its content: a null stored by an earlier add/replace (a non-nil node whose text is `null`) is treated as different from null, so `add /b null` followed by `test /b null` fails", true)
+			switch {
+			case consults:
+				l.add("R-NULLSPELL", b.Name, key, b.posOf(r), Discharged, "controlled by a comparison method applied to the looked-up node", true)
+			case onlyAbsentValue && b.Name == "legacy":
+				l.add("R-NULLSPELL", b.Name, key, b.posOf(r), Excepted, "reached only when the operation has no value member at all (the accessor returns a nil node): RFC 6902 requires the member for test, and C18 promises nothing for such a patch", true)
+			default:
+				l.add("R-NULLSPELL", b.Name, key, b.posOf(r), Violated, "this verdict is reached with a non-nil looked-up node without looking at its content: a null stored by an earlier add/replace (a non-nil node) is treated as different from null, so `add /b null` followed by `test /b null` fails", true)
 			}
 		}
+	}
+}
+
+// nullSpellComparison: inside the recursive comparison, null has more than
+// one spelling (a nil node for a decoded null; a non-nil node — whose text is
+// `null` in v5, whose raw is nil in the legacy package — for one stored by
+// add/replace). No "different" verdict may be taken from nil-ness alone:
+// neither from the nil-ness of member/element nodes in the loops, nor, in the
+// prologue, from one operand being nil while the other is not.
+func nullSpellComparison(c *Ctx, b *Body) {
+	l := c.L
+	cmp := b.equalRole()
+	if cmp == nil || cmp.Blocks == nil {
+		return
+	}
+	name := b.canonFname(cmp)
+	key := fmt.Sprintf("%s: no `different` verdict is taken from the nil-ness of member or element nodes", name)
+	bad := ""
+	isMemberNode := func(v ssa.Value) bool {
+		switch x := v.(type) {
+		case *ssa.Extract:
+			switch x.Tuple.(type) {
+			case *ssa.Next, *ssa.Lookup:
+				return isPtrToNamed(x.Type(), "lazyNode")
+			}
+		case *ssa.Lookup:
+			return isPtrToNamed(x.Type(), "lazyNode")
+		case *ssa.UnOp:
+			if _, ok := x.X.(*ssa.IndexAddr); ok {
+				return isPtrToNamed(x.Type(), "lazyNode")
+			}
+		}
+		return false
+	}
+	var mentions func(v ssa.Value, d int, pred func(ssa.Value) bool) bool
+	mentions = func(v ssa.Value, d int, pred func(ssa.Value) bool) bool {
+		if v == nil || d > 5 {
+			return false
+		}
+		if pred(v) {
+			return true
+		}
+		switch x := v.(type) {
+		case *ssa.BinOp:
+			return mentions(x.X, d+1, pred) || mentions(x.Y, d+1, pred)
+		case *ssa.UnOp:
+			return mentions(x.X, d+1, pred)
+		case *ssa.Phi:
+			for _, e := range x.Edges {
+				if mentions(e, d+1, pred) {
+					return true
+				}
+			}
+			for _, p := range x.Block().Preds {
+				if iff, ok := p.Instrs[len(p.Instrs)-1].(*ssa.If); ok && mentions(iff.Cond, d+1, pred) {
+					return true
+				}
+			}
+			if id := x.Block().Idom(); id != nil {
+				if iff, ok := id.Instrs[len(id.Instrs)-1].(*ssa.If); ok && mentions(iff.Cond, d+1, pred) {
+					return true
+				}
+			}
+		}
+		return false
+	}
+	memberNil := func(v ssa.Value) bool {
+		x, _, ok := nilTestOfCond(v)
+		return ok && isMemberNode(x)
+	}
+	for _, r := range liveReturns(cmp) {
+		k, isK := boolConst(retVal(r, 0))
+		if !isK || k {
+			continue
+		}
+		for _, e := range b.controlDeps(r.Block()) {
+			if iff, ok := e.From.Instrs[len(e.From.Instrs)-1].(*ssa.If); ok && mentions(iff.Cond, 0, memberNil) {
+				bad = "`return false` at " + b.posOf(r) + " is decided by whether member/element nodes are nil: a null stored by add/replace (a non-nil node) then differs from a decoded null (nil node), so `add /o/a null` followed by `test /o {\"a\":null}` fails"
+			}
+		}
+	}
+	if bad != "" {
+		l.add("R-NULLSPELL", b.Name, key, b.rel(cmp.Pos()), Violated, bad, true)
+	} else {
+		l.add("R-NULLSPELL", b.Name, key, b.rel(cmp.Pos()), Discharged, "member and element nodes are compared through the comparison method itself", true)
+	}
+	// prologue: a verdict computed where an operand is nil also looks at the other operand's content
+	key = fmt.Sprintf("%s: when one operand is the nil node, the verdict looks at the content of the other", name)
+	isOperand := func(v ssa.Value) bool {
+		p, ok := v.(*ssa.Parameter)
+		return ok && p.Parent() == cmp && isPtrToNamed(p.Type(), "lazyNode")
+	}
+	operandNil := func(v ssa.Value) bool {
+		x, _, ok := nilTestOfCond(v)
+		return ok && isOperand(x)
+	}
+	content := func(v ssa.Value) bool {
+		switch x := v.(type) {
+		case *ssa.Call:
+			for _, a := range x.Call.Args {
+				if isOperand(a) {
+					return true
+				}
+			}
+		case *ssa.UnOp:
+			if fa, ok := x.X.(*ssa.FieldAddr); ok && isOperand(fa.X) {
+				return true
+			}
+		}
+		if bo, ok := v.(*ssa.BinOp); ok {
+			for _, o := range []ssa.Value{bo.X, bo.Y} {
+				if u, ok := o.(*ssa.UnOp); ok {
+					if fa, ok := u.X.(*ssa.FieldAddr); ok && isOperand(fa.X) {
+						return true
+					}
+				}
+			}
+		}
+		return false
+	}
+	bad = ""
+	n := 0
+	for _, r := range liveReturns(cmp) {
+		v := retVal(r, 0)
+		if _, isK := boolConst(v); isK {
+			continue
+		}
+		if !mentions(v, 0, operandNil) {
+			continue
+		}
+		n++
+		if !mentions(v, 0, content) {
+			bad = "the verdict returned at " + b.posOf(r) + " is computed from the nil-ness of the two operands alone: a null stored by add/replace (a non-nil node) differs from a decoded null (the nil node), so after `add /b null` a test of the enclosing object against {…,\"b\":null} fails"
+		}
+	}
+	if bad != "" {
+		l.add("R-NULLSPELL", b.Name, key, b.rel(cmp.Pos()), Violated, bad, true)
+	} else if n > 0 {
+		l.add("R-NULLSPELL", b.Name, key, b.rel(cmp.Pos()), Discharged, fmt.Sprintf("%d verdict(s) on the nil-operand path, each also reading the other operand's state", n), true)
 	}
 }
